@@ -47,6 +47,8 @@ from solvor.types import Result
 
 __all__ = ["articulation_points", "bridges"]
 
+_ROOT = object()  # parent of a DFS root; a sentinel, because None may be a node label
+
 
 def _undirected_adjacency[S](
     node_list: list[S],
@@ -81,7 +83,7 @@ def articulation_points[S](
     adj = _undirected_adjacency(node_list, neighbors)
     discovery: dict[S, int] = {}
     low: dict[S, int] = {}
-    parent: dict[S, S | None] = {}
+    parent: dict[S, object] = {}
     ap: set[S] = set()
     time = [0]
     iterations = 0
@@ -105,7 +107,7 @@ def articulation_points[S](
                 # v is an articulation point if:
                 # 1. v is root and has 2+ children, OR
                 # 2. v is not root and low[w] >= discovery[v]
-                if parent[v] is None:
+                if parent[v] is _ROOT:
                     if children >= 2:
                         ap.add(v)
                 elif low[w] >= discovery[v]:
@@ -117,7 +119,7 @@ def articulation_points[S](
     # Handle disconnected components
     for v in node_list:
         if v not in discovery:
-            parent[v] = None
+            parent[v] = _ROOT
             dfs(v)
 
     return Result(ap, len(ap), iterations, n)
@@ -141,7 +143,7 @@ def bridges[S](
     adj = _undirected_adjacency(node_list, neighbors)
     discovery: dict[S, int] = {}
     low: dict[S, int] = {}
-    parent: dict[S, S | None] = {}
+    parent: dict[S, object] = {}
     bridge_list: list[tuple[S, S]] = []
     time = [0]
     iterations = 0
@@ -172,7 +174,7 @@ def bridges[S](
     # Handle disconnected components
     for v in node_list:
         if v not in discovery:
-            parent[v] = None
+            parent[v] = _ROOT
             dfs(v)
 
     return Result(bridge_list, len(bridge_list), iterations, n)
